@@ -184,7 +184,7 @@ def main():
                      "serves_properties": sorted(claimed),
                      "kind_free_text": "TLA+ specifications (spec/*.tla) model-checked with TLC; dumped state graphs replayed into the real HoloPy code and traces recorded from the real code validated by TLC trace specifications"},
                     {"name": "tla-conformance-extensions", "path": "/verif/extras", "serves_properties": [],
-                     "kind_free_text": "the same method on behaviour beyond the listed properties (checks/x*.py, spec modules SamplingSession, PriorUpdate, Display, ScattererTree, Stacking, DictOps, PointSource, Shapes, FitMeasures, CenterPriors, Viewer); ./extras [--tier T], evidence/X*.json"}],
+                     "kind_free_text": "the same method on behaviour beyond the listed properties (checks/x*.py, spec modules SamplingSession, PriorUpdate, Display, ScattererTree, Stacking, DictOps, PointSource, Shapes, FitMeasures, CenterPriors, Viewer, SmallBodies); ./extras [--tier T], evidence/X*.json"}],
         "checks": checks,
         "notes": "See DESIGN.md. ./check <ID> [--tier quick|thorough]; exit 0 held / 1 VIOLATION / 2 machinery failure. known_findings.json lists repaired and open genuine defects. seeded/ holds the confirmed seeded changes (lib/regress_mutants.sh re-runs them all in scratch worktrees).",
         "not_applicable": na,
